@@ -13,6 +13,7 @@
      route <url>                           -> nf | list <path> | file <path> <vers> <ext>
      req <url>                             -> response of a fresh server
      seq <url>*                            -> responses of ONE server answering the urls in order
+     exact <url>*                          -> x (0|1)*  : 1 = answered with something else than 404 (served_b)
      conc <i,j,k,...> <url>*               -> responses of one server whose handlers are interleaved
                                               by the schedule (then finished round-robin)
      cd <url>                              -> cd <n> (<name> <method> <flags> <crc32> <size>)*n | nozip <status>
@@ -205,12 +206,22 @@ let handle = function
       | r -> "nozip " ^ (match r with NotFound -> "404" | Err500 -> "500" | _ -> "200"))
   | ["req"; u] -> with_server (fun ml -> show_resp (respond orc !cur_dir ml (bytes_of_hex u)))
   | "seq" :: us ->
+      (* the server as a state machine (ProxyExact.v: server_start / serve_all): the module list of the
+         final state must be the one read at start-up (modlist_immutable) *)
       with_server (fun ml ->
         let d = !cur_dir in
-        let (_, out) = List.fold_left (fun (st, acc) u ->
-          let (r, st') = run d (handler orc d ml (bytes_of_hex u)) st in (st', show_resp r :: acc))
-          (no_caches, []) us in
-        String.concat " | " (List.rev out))
+        match server_start orc d with
+        | None -> "NOSERVER"
+        | Some s ->
+            let (rs, s') = serve_all orc d s (List.map bytes_of_hex us) in
+            if s'.sv_modlist <> ml then "MODLIST-CHANGED" else
+            String.concat " | " (List.map show_resp rs))
+  | "exact" :: us ->
+      (* served_b (ProxyExact.v): is the URL answered with something else than 404, decided from
+         the store without running a handler *)
+      with_server (fun ml ->
+        let d = !cur_dir in
+        String.concat " " ("x" :: List.map (fun u -> if served_b orc d ml (bytes_of_hex u) then "1" else "0") us))
   | "conc" :: s :: us ->
       with_server (fun ml ->
         let d = !cur_dir in
